@@ -165,9 +165,29 @@ def ungrouped_summarize_then_deselect(case):
     return False
 
 
+def _ref_tables(case):
+    """Reference tables per step output (None if the reference cannot run the case)."""
+    from . import refsem
+
+    try:
+        env = refsem.run({k: v for k, v in case.items() if k in ("tables", "steps", "result")})
+    except Exception:  # noqa: BLE001 - no attribution without the reference
+        return None
+    return env.vars
+
+
 @matcher("ungrouped_summarize_deselected")
 def _m_k03(case, fj):
-    return ungrouped_summarize_then_deselect(case)
+    """K03: some table of the history has the columns of an ungrouped summarize in scope but none of them selected."""
+    if not ungrouped_summarize_then_deselect(case):
+        return False
+    vars_ = _ref_tables(case)
+    if vars_ is None:
+        return False
+    for t in vars_.values():
+        if t.agg_cols and not any(c in t.agg_cols for _, c in t.visible):
+            return True
+    return False
 
 
 def const_item_names(case):
@@ -198,7 +218,21 @@ def group_by_constant(case):
 
 @matcher("group_by_constant")
 def _m_k05(case, fj):
-    return group_by_constant(case)
+    """K05: a table of the history is grouped by a column that is defined by a literal-only expression."""
+    if not group_by_constant(case):
+        return False
+    vars_ = _ref_tables(case)
+    if vars_ is None:
+        return False
+    by_out = {s["out"]: s for s in steps_of(case)}
+    for v, t in vars_.items():
+        s = by_out.get(v)
+        if s is None or s["verb"] != "group_by":
+            continue
+        src = vars_.get(s["in"])
+        if any(c in t.const_cols or (src is not None and c in src.const_cols) for c in t.group):
+            return True
+    return False
 
 
 @matcher("uint64_column")
